@@ -853,11 +853,30 @@ func ModelInput(res *Result) string {
 	d0 := append([]int(nil), c.D0...)
 	sort.Ints(d0)
 	mode := c.Mode
+	rootField := fmt.Sprint(root)
+	if c.Mode == "x" || c.Mode == "X" {
+		// ExtendedCopy(Graph): copyGraph runs from every root above the node, sharing tracker, proxy and
+		// limiter (the model's c_xroots); the final Tag of ExtendedCopy is outside the transition system
+		mode = "g"
+		var rs []string
+		for _, n := range g.Nodes {
+			if !n.Foreign() && len(g.Preds(n.ID)) == 0 && g.Reach(n.ID)[c.Root] {
+				rs = append(rs, fmt.Sprint(n.ID))
+			}
+		}
+		rootField = strings.Join(rs, "+")
+		if c.Mode == "X" && len(res.Toks) >= 3 {
+			k := len(res.Toks)
+			if res.Toks[k-3] == fmt.Sprintf("TB.%d", c.Root) && res.Toks[k-2] == fmt.Sprintf("TE.%d", c.Root) {
+				tr = strings.Join(append(append([]string(nil), res.Toks[:k-3]...), res.Toks[k-1]), ",")
+			}
+		}
+	}
 	if c.Mounting() {
 		mode += "m"
 	}
 	mode += "/" + c.cbBits()
-	return fmt.Sprintf("%d %d %s %d %s %s %s %s %srp=%s:%d:%d:%d", len(g.Nodes), c.K, mode, root, ints(cached0),
+	return fmt.Sprintf("%d %d %s %s %s %s %s %s %srp=%s:%d:%d:%d", len(g.Nodes), c.K, mode, rootField, ints(cached0),
 		strings.Join(nodes, ";"), ints(d0), tr, platformField(c, g), c.Stream, c.GenSeed, b2i(c.Thorough), c.Seed)
 }
 
@@ -944,7 +963,7 @@ func ImplObs(res *Result) string {
 		ret = "1"
 	}
 	tag := "-"
-	if res.Case.Mode != "g" && res.Case.Mode != "x" && res.TagNode >= 0 {
+	if (res.Case.Mode == "t" || res.Case.Mode == "r") && res.TagNode >= 0 {
 		tag = fmt.Sprint(res.TagNode)
 	}
 	var present []int
